@@ -43,10 +43,14 @@ SimApply ==
   \E txs \in One(GrowTxs(<<>>, RandomElement(0..MaxTxs))) :
     RApply(d, ver, txs)
 
-(* 3 : 2 in favour of growth while the chain may grow; reverts come in runs, so forks get deep *)
+(* 3 : 2 in favour of growth while the chain may grow; reverts come in runs, so forks get deep;
+   one step in six is a restart (graceful or not) - it may fall anywhere, in particular right
+   before a RevertHead or a Store, which then is the first operation of the new process *)
 SimNext ==
-  \E r \in One(RandomElement(1..5)) :
-    IF NBlocks = 0 \/ (r <= 3 /\ NBlocks < MaxBlocks) THEN SimApply ELSE RRevert
+  \E r \in One(RandomElement(1..6)) :
+    IF NBlocks = 0 \/ (r <= 3 /\ NBlocks < MaxBlocks) THEN SimApply
+    ELSE IF r = 6 /\ act.name # "Restart" THEN \E g \in One(RandomElement(BOOLEAN)) : RRestart(g)
+    ELSE RRevert
 
 IdxProj == [height |-> idx'.height, loc |-> idx'.loc, msg |-> idx'.msg]
 
@@ -60,6 +64,7 @@ Emit ==
   /\ chain' = <<>> /\ truth' = <<>> /\ roots' = <<>>
   /\ ldb' = InitL /\ ndb' = InitN /\ cdb' = InitC /\ idx' = InitI
   /\ failed' = "no" /\ act' = [name |-> "Init"] /\ res' = "ok"
+  /\ hot' = FALSE /\ fcov' = {} /\ fnext' = 0
   /\ hist' = <<>> /\ steps' = 0
 
 MBTNext == IF steps >= MaxSteps \/ failed # "no" THEN Emit ELSE Step
